@@ -748,7 +748,7 @@ func genOpenAPIRanges(repo string) (out string) {
 				msg = e.msg
 			}
 			out = head + "def extractError : Option String := some " + leanStr(msg) + "\n" +
-				"def ranges : List RangeFact := []\ndef mapLoopCallees : List String := []\ndef projWrites : List String := []\n\nend Rivaas.Gen.OpenAPIRanges\n"
+				"def ranges : List RangeFact := []\ndef mapLoopCallees : List String := []\ndef mapIterCalls : List (String × String × Bool) := []\ndef projWrites : List String := []\n\nend Rivaas.Gen.OpenAPIRanges\n"
 		}
 	}()
 	w := &orWorld{pkgs: map[string]*orPkg{}}
@@ -759,6 +759,7 @@ func genOpenAPIRanges(repo string) (out string) {
 	w.load("schema", filepath.Join(base, "internal", "schema"))
 	w.load("export", filepath.Join(base, "internal", "export"))
 	o := &orOut{callees: map[string]bool{}}
+	var mapIters []string
 	for _, pn := range []string{"openapi", "build", "schema", "export"} {
 		p := w.pkgs[pn]
 		for _, f := range p.p.files {
@@ -776,6 +777,29 @@ func genOpenAPIRanges(repo string) (out string) {
 					name = recvType(fd) + "." + name
 				}
 				o.walkFunc(w, pn, file, name, fd.Recv, fd.Type, fd.Body)
+				// map iteration hidden in an iterator: maps.Keys / maps.Values / maps.All — order-free only when the
+				// call is the direct argument of slices.Sorted
+				var stack []ast.Node
+				ast.Inspect(fd.Body, func(m ast.Node) bool {
+					if m == nil {
+						stack = stack[:len(stack)-1]
+						return true
+					}
+					if c, ok := m.(*ast.CallExpr); ok {
+						switch src(c.Fun) {
+						case "maps.Keys", "maps.Values", "maps.All":
+							sorted := false
+							if len(stack) > 0 {
+								if pc, ok := stack[len(stack)-1].(*ast.CallExpr); ok && src(pc.Fun) == "slices.Sorted" {
+									sorted = true
+								}
+							}
+							mapIters = append(mapIters, fmt.Sprintf("(%s, %s, %v)", leanStr(name), leanStr(src(c)), sorted))
+						}
+					}
+					stack = append(stack, m)
+					return true
+				})
 			}
 		}
 	}
@@ -840,6 +864,7 @@ func genOpenAPIRanges(repo string) (out string) {
 		pws = append(pws, leanStr(k))
 	}
 	sort.Strings(pws)
+	b.WriteString("/-- calls of maps.Keys / maps.Values / maps.All: (function, call, directly under slices.Sorted) -/\ndef mapIterCalls : List (String × String × Bool) := [" + strings.Join(mapIters, ", ") + "]\n\n")
 	b.WriteString("/-- receiver fields assigned by the methods of the projection contexts proj30 / proj31 -/\ndef projWrites : List String := [" + strings.Join(pws, ", ") + "]\n\nend Rivaas.Gen.OpenAPIRanges\n")
 	return b.String()
 }
